@@ -534,6 +534,484 @@ class C13(Prop):
         return None
 
 
+
+# ------------------------------------------------------------------------------------------------
+# v1 / auto properties
+# ------------------------------------------------------------------------------------------------
+
+V1_TRAILERS = [b"x", b"5", b" ", b"\r", b"\n", b"\r\n", b"\x00", b"PROXY UNKNOWN\r\n", b"PROXY", "é".encode(), SIG]
+
+
+def v1_header_candidate(b):
+    """the bytes through the LF that follows the first CR, if any"""
+    i = b.find(b"\r")
+    if i < 0 or i + 2 > len(b):
+        return None
+    return b[:i + 2]
+
+
+def v2_header_candidate(b):
+    if len(b) < 16:
+        return None
+    n = 16 + b[14] * 256 + b[15]
+    return b[:n] if n <= len(b) else None
+
+
+def settled(b):
+    i = b.find(b"\r")
+    return (i >= 0 and i + 1 < len(b)) or (i < 0 and len(b) >= 107)
+
+
+def cls3(line):
+    """OK / INC / TERM from the flags of an observation line"""
+    f = flags_of(line)
+    if line.startswith("PANIC"):
+        return "PANIC"
+    body = strip_flags(line)
+    if body.startswith("OK") or " OK " in body[:8]:
+        return "OK"
+    return "INC" if f and f[0] else "TERM"
+
+
+class C01(Prop):
+    id = "C01"
+    projection_name = "acc (accepted header text + decoded addresses, or REJ), on all four text entry points"
+    streams = v1gen.V1_STREAMS
+    assumptions = ("&str entry points are only given valid UTF-8 (a Rust type invariant)",)
+    trusted_extra = ("Std models of Ipv4Addr/Ipv6Addr/u16 FromStr and str::from_utf8: proved equal to the split-based grammar "
+                     "(Proofs/StdNum.v, StdIp6.v) and compared with the real std by the XSTD stream of ./check XSTD",)
+
+    def groups(self, stream, e, meta):
+        cases = ["v1b " + e]
+        if is_utf8(expr_bytes(e)):
+            cases += ["v1s " + e, "v1fh " + e, "v1fa " + e]
+        yield ("acc", cases)
+
+    def project(self, case, line):
+        return acc(line)
+
+    def oracle(self, tag, cases, impl, spec, meta):
+        for c, i, s in zip(cases, impl, spec):
+            if i == "PANIC":
+                return "%s panicked" % c[:100]
+            if acc(i) != s:
+                return "%s: impl `%s`, grammar `%s`" % (c[:160], acc(i)[:160], s[:160])
+        return None
+
+
+class C18(Prop):
+    id = "C18"
+    projection_name = "cls (success / incomplete / terminal, and is_complete)"
+    streams = v1gen.V1_STREAMS
+
+    def groups(self, stream, e, meta):
+        b = expr_bytes(e)
+        cases = ["v1b " + e]
+        if is_utf8(b):
+            cases.append("v1s " + e)
+        if settled(b):
+            for t in (b"x", b"\r\n", b"\xff", b" 1"):
+                cases.append("v1b " + hx(b + t))
+        yield ("final", cases)
+
+    def project(self, case, line):
+        return cls3(line) + (FLAGS.search(line).group(0) if FLAGS.search(line) else "")
+
+    def classify(self, case, line):
+        b = expr_bytes(case.split(" ")[1])
+        return "%s settled=%d" % (cls3(line), settled(b))
+
+    def oracle(self, tag, cases, impl, spec, meta):
+        b = expr_bytes(cases[0].split(" ")[1])
+        if not settled(b):
+            return None
+        base = None
+        for c, i in zip(cases, impl):
+            if i == "PANIC":
+                return "%s panicked" % c[:100]
+            k = cls3(i)
+            if k == "INC":
+                return "reported incomplete although the first line break (or 107 bytes) has been seen: %s -> %s" % (c[:160], i[:80])
+            if c.startswith("v1b "):
+                if base is None:
+                    base = k
+                elif k != base:
+                    return "a later byte changed the verdict: %s is %s, its extension %s is %s" % (cases[0][:120], base, c[:140], k)
+        return None
+
+
+class C04(Prop):
+    id = "C04"
+    projection_name = "acc of the input, of the input followed by trailers, and of the header bytes on their own"
+    streams = v1gen.V1_STREAMS + (v2gen.valid_headers, v2gen.control_v2, v2gen.header_tlvs)
+
+    def groups(self, stream, e, meta):
+        b = expr_bytes(e)
+        if len(b) > 2000:
+            return
+        modes = ["v2", "auto"] if stream.startswith("v2") else ["v1b", "auto"] + (["v1s"] if is_utf8(b) else [])
+        cand = v2_header_candidate(b) if stream.startswith("v2") else v1_header_candidate(b)
+        for m in modes:
+            cases = ["%s %s" % (m, e)]
+            for t in V1_TRAILERS:
+                if m == "v1s" and not is_utf8(b + t):
+                    continue
+                cases.append("%s %s" % (m, hx(b + t)))
+            if cand is not None and (m != "v1s" or is_utf8(cand)):
+                cases.append("%s %s" % (m, hx(cand)))
+            yield ("trail:" + ("cand" if cand is not None else "nocand"), cases)
+
+    def project(self, case, line):
+        return acc(line)
+
+    def oracle(self, tag, cases, impl, spec, meta):
+        a0 = acc(impl[0])
+        if impl[0] == "PANIC":
+            return "parser panicked"
+        if not (a0.startswith("OK ") or a0.startswith("V1 OK ") or a0.startswith("V2 OK ")):
+            return None
+        b = expr_bytes(cases[0].split(" ")[1])
+        for c, i in zip(cases[1:], impl[1:]):
+            if acc(i) != a0:
+                return "accepted header depends on what follows it: %s -> %s but %s -> %s" % (cases[0][:120], a0[:100], c[:140], acc(i)[:100])
+        if tag.endswith("nocand"):
+            return "accepted although no complete header is present in the input"
+        m = re.search(r"OK (\S+)", a0)
+        head = hexs_head(m.group(1))
+        if hexs_len(m.group(1)) != len(expr_bytes(cases[-1].split(" ")[1])) or not b.startswith(head):
+            return "reported header bytes are not the line through its CRLF / the first 16 + length bytes of the input"
+        return None
+
+
+class C05(Prop):
+    id = "C05"
+    projection_name = "cls (success / incomplete / terminal, both flags)"
+    streams = (v1gen.corpus, v1gen.valid, v1gen.slot_substitution, v1gen.length_boundary, v2gen.valid_headers, v2gen.control_v2)
+
+    def groups(self, stream, e, meta):
+        b = expr_bytes(e)
+        if len(b) > 400:
+            return
+        if stream.startswith("v2"):
+            cand = v2_header_candidate(b)
+            modes = ["v2", "auto"]
+        else:
+            cand = v1_header_candidate(b)
+            modes = ["v1b", "auto"] + (["v1s"] if is_utf8(b) else [])
+        if cand is None:
+            yield ("flags", ["%s %s" % (m, e) for m in modes])
+            return
+        for m in modes:
+            cases = ["%s %s" % (m, e)]
+            for k in range(len(cand)):
+                if m == "v1s" and not is_utf8(cand[:k]):
+                    continue
+                cases.append("%s %s" % (m, hx(cand[:k])))
+            yield ("prefixes", cases)
+
+    def project(self, case, line):
+        f = FLAGS.findall(line)
+        return cls3(line) + str(f)
+
+    def classify(self, case, line):
+        return cls3(line)
+
+    def oracle(self, tag, cases, impl, spec, meta):
+        for c, i in zip(cases, impl):
+            if i == "PANIC":
+                return "%s panicked" % c[:100]
+            for (a, b_) in FLAGS.findall(i) + [m.groups() for m in re.finditer(r" i([01])c([01]) ", i)]:
+                if a == b_:
+                    return "is_complete is not the negation of is_incomplete: %s -> %s" % (c[:120], i[:120])
+            if cls3(i) == "OK" and flags_of(i)[0]:
+                return "a success is flagged incomplete"
+        if tag != "prefixes" or cls3(impl[0]) != "OK":
+            return None
+        head = expr_bytes(cases[0].split(" ")[1])
+        if cases[0].startswith(("v1", "auto")) and not cases[0].startswith("auto 0d0a") and any(x >= 128 for x in (v1_header_candidate(head) or b"")):
+            return None     # the property is stated for US-ASCII v1 lines
+        for c, i in zip(cases[1:], impl[1:]):
+            if cls3(i) != "INC":
+                return "a proper prefix of an accepted header is not reported incomplete: %s -> %s" % (c[:160], i[:100])
+        return None
+
+
+class C06(Prop):
+    id = "C06"
+    projection_name = "full (tag, result and flags of HeaderResult::parse)"
+    streams = v1gen.V1_STREAMS + (v2gen.signature, v2gen.valid_headers, v2gen.truncations, v2gen.control_v2, v2gen.control_space)
+
+    def groups(self, stream, e, meta):
+        if expr_len(e) > 3000:
+            return
+        yield ("auto", ["auto " + e, "v2 " + e, "v1b " + e])
+        if stream in ("v1-valid", "v2-valid"):
+            b = expr_bytes(e)
+            # inputs that mix both versions
+            yield ("auto", ["auto " + hx(SIG + b), "v2 " + hx(SIG + b), "v1b " + hx(SIG + b)])
+            yield ("auto", ["auto " + hx(b"PROXY UNKNOWN\r\n" + b), "v2 " + hx(b"PROXY UNKNOWN\r\n" + b), "v1b " + hx(b"PROXY UNKNOWN\r\n" + b)])
+
+    def classify(self, case, line):
+        return case.split(" ")[0] + " " + line.split(" ")[0] + " " + cls3(line)
+
+    def oracle(self, tag, cases, impl, spec, meta):
+        a, r2, r1 = impl
+        if "PANIC" in impl:
+            return "a parser panicked"
+        k2 = cls3(r2)
+        want = ("V2 " + r2 + FLAGS.search(r2).group(0)) if k2 in ("OK", "INC") else ("V1 " + r1 + FLAGS.search(r1).group(0))
+        if a != want:
+            return "HeaderResult::parse gives `%s`; the dedicated parsers give v2 `%s`, v1 `%s`" % (a[:140], r2[:100], r1[:100])
+        if k2 == "OK" and cls3(r1) == "OK":
+            return "both dedicated parsers accept the same input"
+        m = re.search(r"possible=([01])$", spec[1])
+        if m and m.group(1) == "1" and not (a.startswith("V2 ") and cls3(a) in ("OK", "INC")):
+            return "a buffer that is still a possible v2 header was handed to the text parser's verdict: %s" % a[:120]
+        return None
+
+
+class C12(Prop):
+    id = "C12"
+    projection_name = "full (error variant with its crate-decided payload, and the completeness flag)"
+    streams = (v1gen.mutations, v2gen.control_v2, v2gen.control_space, v2gen.signature)
+
+    def groups(self, stream, e, meta):
+        if stream == "v1-mut":
+            cases = ["v1b " + e, "auto " + e]
+            if not meta.get("bytes_only") and is_utf8(expr_bytes(e)):
+                cases.append("v1s " + e)
+            yield ("v1:" + meta["elem"], cases)
+        else:
+            yield ("v2", ["v2 " + e, "auto " + e])
+
+    def oracle(self, tag, cases, impl, spec, meta):
+        if "PANIC" in impl:
+            return "a parser panicked"
+        if tag.startswith("v1:"):
+            elem = tag[3:]
+            want = {"kw": "InvalidPrefix", "proto": "InvalidProtocol", "sa": "InvalidSourceAddress", "da": "InvalidDestinationAddress",
+                    "sp": "InvalidSourcePort", "dp": "InvalidDestinationPort", "nl": "InvalidSuffix", "long": "HeaderTooLong",
+                    "utf8": "InvalidUtf8", "none": None}[elem]
+            if want is None:
+                return None
+            # a replacement can also push the line over the 107-byte limit or make it invalid UTF-8: then that
+            # (earlier) check is the one the parser must report
+            xb = expr_bytes(cases[0].split(" ")[1])
+            cr = xb.find(b"\r")
+            window = xb[:cr + 2] if cr >= 0 else xb
+            if not is_utf8(window):
+                want = "InvalidUtf8"
+            elif len(window) > 107:
+                want = "HeaderTooLong"
+            for c, i in zip(cases, impl):
+                body = strip_flags(i)
+                if c.startswith("auto "):
+                    body = strip_flags(body)
+                    if not body.startswith("V1 "):
+                        return "a text line was not given the text parser's verdict: %s" % i[:100]
+                    body = body[3:]
+                if c.startswith("v1s ") and want == "InvalidUtf8":
+                    continue
+                if not re.match(r"ERR %s(\(|$)" % want, body) or not i.endswith("i0c1"):
+                    return "element `%s` corrupted (%s): expected a terminal %s, got `%s` for %s" % (elem, meta.get("bad", ""), want, i[:80], c[:160])
+            return None
+        # v2: decide from the bytes which single element is malformed (all others valid, >= 16 bytes present)
+        x = expr_bytes(cases[0].split(" ")[1])[:16]
+        if len(x) < 16:
+            return None
+        got = strip_flags(impl[0])
+        vc, fp, n = x[12], x[13], x[14] * 256 + x[15]
+        bad = []
+        if x[:12] != SIG:
+            bad.append("ERR Prefix")
+        if vc >> 4 != 2:
+            bad.append("ERR Version(%d)" % (vc & 0xF0))
+        if vc & 15 > 1:
+            bad.append("ERR Command(%d)" % (vc & 15))
+        if fp >> 4 > 3:
+            bad.append("ERR AddressFamily(%d)" % (fp & 0xF0))
+        if fp & 15 > 2:
+            bad.append("ERR Protocol(%d)" % (fp & 15))
+        size = {0: 0, 1: 12, 2: 36, 3: 216}.get(fp >> 4, 0)
+        if fp >> 4 <= 3 and n < size:
+            bad.append("ERR InvalidAddresses(%d,%d)" % (n, size))
+        if len(bad) != 1:
+            return None
+        if got != bad[0] or not impl[0].endswith("i0c1"):
+            return "one malformed element, expected a terminal `%s`, got `%s`" % (bad[0], impl[0][:80])
+        if cls3(impl[1]) != "TERM":
+            return "under auto-detection a corrupted v2 header is not rejected terminally: %s" % impl[1][:100]
+        return None
+
+
+class C15(Prop):
+    id = "C15"
+    projection_name = "views (protocol(), addresses_str(), to_string() of the borrowed and the owned header)"
+    streams = (v1gen.corpus, v1gen.valid, v1gen.slot_substitution, v1gen.length_boundary, v1gen.token_enum)
+
+    def groups(self, stream, e, meta):
+        yield ("views", ["views1 " + e, "v1b " + e])
+
+    def project(self, case, line):
+        return line.split(" | ")[0]
+
+    def classify(self, case, line):
+        if line.startswith("B["):
+            return "OK proto=" + kv(line[2:line.index("]")])["proto"]
+        return line.split(" ")[0] if not line.startswith("ERR") else "REJ"
+
+    def oracle(self, tag, cases, impl, spec, meta):
+        line, parsed = impl
+        if "PANIC" in impl:
+            return "a view panicked"
+        if line == "REJ":
+            return None if not parsed.startswith("OK") else "views unavailable for an accepted header"
+        m = re.match(r"B\[(.*)\] O\[(.*)\] \| (.*)$", line)
+        b, o, extra = kv(m.group(1)), kv(m.group(2)), kv(m.group(3))
+        if b != o or extra != {"eq": "1", "clobber": "1"}:
+            return "owned copy differs from the borrowed header: %s" % line[-60:]
+        text = hexs_head(strip_flags(parsed).split(" ")[1])
+        un = lambda h: b"" if h == "-" else bytes.fromhex(h)
+        proto, aproto, astr, s_ = un(b["proto"]), un(b["aproto"]), un(b["astr"]), un(b["str"])
+        if s_ != text:
+            return "to_string() is not the header text"
+        fields = text[:-2].split(b" ")
+        if proto != aproto or len(fields) < 2 or proto != fields[1]:
+            return "protocol() is not the second field of the line / not the kind of the addresses"
+        kind = strip_flags(parsed).split(" ")[2][0]
+        if {b"TCP4": "4", b"TCP6": "6", b"UNKNOWN": "U"}.get(proto) != kind:
+            return "protocol keyword does not match the decoded addresses"
+        for sep in (b"", b" "):
+            if b"PROXY " + proto + sep + astr + b"\r\n" == text and (sep or not astr):
+                return None
+        return "PROXY, protocol, address text and CRLF do not re-assemble to the header text"
+
+
+class C16(Prop):
+    id = "C16"
+    projection_name = "full (result of the four text entry points; views and equality of owned copies)"
+    streams = v1gen.V1_STREAMS + (v2gen.valid_headers, v2gen.header_tlvs)
+    needs_no_unsafe = True
+    trusted_extra = ("PARTIAL: independence of owned copies from the source buffer is a property of Rust's ownership, not of "
+                     "any Gallina value; checked by observation (buffer overwritten and freed before the copy is compared) "
+                     "and by the absence of `unsafe` in /repo/src",)
+
+    def groups(self, stream, e, meta):
+        b = expr_bytes(e)
+        if stream.startswith("v2"):
+            yield ("own2", ["views2 " + e])
+            return
+        if is_utf8(b):
+            yield ("agree", ["v1b " + e, "v1s " + e, "v1fh " + e, "v1fa " + e])
+        yield ("own1", ["views1 " + e])
+
+    def project(self, case, line):
+        return line.split(" | ")[0]
+
+    def oracle(self, tag, cases, impl, spec, meta):
+        if "PANIC" in impl:
+            return "an entry point panicked: %s" % cases[impl.index("PANIC")][:160]
+        if tag in ("own1", "own2"):
+            if impl[0] == "REJ":
+                return None
+            m = re.match(r"B\[(.*)\] O\[(.*)\] \| (.*)$", impl[0])
+            extra = kv(m.group(3))
+            if m.group(1) != m.group(2) or extra.get("eq") != "1" or extra.get("clobber") != "1":
+                return "an owned copy differs from its original or did not survive the buffer: %s" % impl[0][-60:]
+            return None
+        b = expr_bytes(cases[0].split(" ")[1])
+        i = b.find(b"\r")
+        n = min(i + 2, len(b)) if i >= 0 else len(b)
+        on_boundary = is_utf8(b[:n])
+        rb, rs, rh, ra = impl
+        if not on_boundary:
+            if any(cls3(x) == "OK" for x in impl):
+                return "the examined line ends inside a multi-byte character, yet an entry point succeeds"
+            return None
+        if rb != rs or rh != rs:
+            return "entry points disagree: bytes `%s`, &str `%s`, Header::from_str `%s`" % (rb[:90], rs[:90], rh[:90])
+        want = ("OK " + strip_flags(rs).split(" ")[2] + FLAGS.search(rs).group(0)) if rs.startswith("OK ") else rs
+        if ra != want:
+            return "Addresses::from_str gives `%s`, Header::try_from `%s`" % (ra[:90], rs[:90])
+        return None
+
+
+def addr_values(tier, rng, k, n):
+    """address values for C08: all 256 zero-masks, mapped, all-ones / all-zero, boundary octets and ports; source != destination"""
+    rng = rng.fork("addr%d" % k)
+    count = (6000 if tier == "quick" else 150000) // n
+    if k == 0:
+        yield ("fmt-unknown", "U", {})
+        for o in (bytes(4), bytes([255] * 4)):
+            yield ("fmt-v4", "4,%s,%s,0,65535" % (hx(o), hx(bytes([1, 2, 3, 4]))), {})
+        for o in (bytes(16), bytes([255] * 16), bytes(10) + b"\xff\xff\x01\x02\x03\x04", bytes(12) + b"\x01\x02\x03\x04"):
+            yield ("fmt-v6", "6,%s,%s,65535,0" % (hx(o), hx(bytes(15) + b"\x01")), {})
+    for mask in range(k, 256, n):
+        for _ in range(3):
+            ga, gb = v1gen.rand_groups(rng, mask), v1gen.rand_groups(rng)
+            yield ("fmt-v6", "6,%s,%s,%d,%d" % (hx(v1gen.groups_octets(ga)), hx(v1gen.groups_octets(gb)), v1gen.rand_port(rng), v1gen.rand_port(rng)), {})
+            yield ("fmt-v6", "6,%s,%s,%d,%d" % (hx(v1gen.groups_octets(gb)), hx(v1gen.groups_octets(ga)), v1gen.rand_port(rng), v1gen.rand_port(rng)), {})
+    for _ in range(count):
+        if rng.chance(1, 2):
+            yield ("fmt-v4", "4,%s,%s,%d,%d" % (hx(v1gen.rand_ip4(rng)), hx(v1gen.rand_ip4(rng)), v1gen.rand_port(rng), v1gen.rand_port(rng)), {})
+        else:
+            yield ("fmt-v6", "6,%s,%s,%d,%d" % (hx(v1gen.groups_octets(v1gen.rand_groups(rng))), hx(v1gen.groups_octets(v1gen.rand_groups(rng))),
+                                                 v1gen.rand_port(rng), v1gen.rand_port(rng)), {})
+    step = 1 if tier != "quick" else 37
+    for p in range(k * step, 65536, n * step):
+        yield ("fmt-ports", "4,01020304,05060708,%d,%d" % (p, 65535 - p), {})
+
+
+class C08(Prop):
+    id = "C08"
+    projection_name = "acc of (to_string, then the four text entry points on it, then to_string of the parsed header)"
+    streams = (addr_values, v1gen.valid)
+
+    def groups(self, stream, e, meta):
+        if stream.startswith("fmt"):
+            yield ("fmt", ["fmt1 " + e])
+        else:
+            yield ("hdr", ["views1 " + e, "v1b " + e])
+
+    def project(self, case, line):
+        return line.split(" | ")[0]
+
+    def classify(self, case, line):
+        return case.split(" ")[1][:1] if case.startswith("fmt1") else line.split(" ")[0][:3]
+
+    def neighbours(self, case, rng):
+        return iter(())
+
+    def oracle(self, tag, cases, impl, spec, meta):
+        if "PANIC" in impl:
+            return "formatting / parsing panicked"
+        if tag == "hdr":
+            if impl[0] == "REJ":
+                return None
+            b = kv(re.match(r"B\[(.*)\] O\[", impl[0]).group(1))
+            if b["str"] != strip_flags(impl[1]).split(" ")[1]:
+                return "a parsed header does not format back to the text it was parsed from"
+            return None
+        a = cases[0].split(" ")[1]
+        m = re.match(r"S=(\S+) B=(.*) S=(.*) H=(.*) A=(.*) HS=(\S+)$", impl[0])
+        if not m:
+            return "unparseable observation"
+        s_, rb, rs, rh, ra, hs = m.groups()
+        if hexs_len(s_) > 107:
+            return "formatted line longer than 107 bytes"
+        f = a.split(",")
+        want = "U" if f[0] == "U" else "%s/%s/%s/%s/%s" % tuple(f)
+        ok = "OK %s %s i0c1" % (s_, want)
+        if rb != ok or rs != ok or rh != ok or ra != "OK %s i0c1" % want:
+            return "formatting %s gives %s, which does not parse back to the same value through every entry point (%s | %s)" % (
+                a, bytes.fromhex(s_), rb[:100], ra[:80])
+        if hs != s_:
+            return "the parsed header does not print the text it was parsed from"
+        if spec[0] != "-" and spec[0] != "WF " + want:
+            return "the formatted text is not a well-formed line for that value according to the grammar: %s" % spec[0][:100]
+        return None
+
+
 def is_utf8(b):
     try:
         b.decode("utf-8")
@@ -592,7 +1070,7 @@ class XSTD(Prop):
         return iter(())
 
 
-REGISTRY = {c.id: c for c in (XV1(), XC01(), XSTD(), C02(), C07(), C09(), C10(), C11(), C13(), C14(), C17(), C20())}
+REGISTRY = {c.id: c for c in (XV1(), XC01(), XSTD(), C01(), C04(), C05(), C06(), C08(), C12(), C15(), C16(), C18(), C02(), C07(), C09(), C10(), C11(), C13(), C14(), C17(), C20())}
 
 
 def get(prop):
